@@ -160,6 +160,16 @@ CHECKS = {
         "Staleness is known by construction; union member order is C14's subject.",
         "6 C10",
     ),
+    "C14": (
+        "exploration",
+        "runtime monitoring: differential observation of `stub` across permuted / duplicated / re-batched / re-dated stores and interpreter processes (PYTHONHASHSEED, memory layout), compared through a parsed normal form",
+        "Trace sets from really traced generated modules (wide unions incl. a multiple-inheritance family, TypedDict-worthy dict families) are "
+        "stored under permutation, duplication, batch / connection splits and different run dates; `stub` runs in separate interpreters with "
+        "PYTHONHASHSEED 0..7 and perturbed memory layout, k in {0,3}, default and no rewriter; imports, classes, definition order and every "
+        "per-position type (unions as sets, TypedDict classes inlined) must be equal across variants.",
+        "Union member order may vary by the statement; trace sets stay below the query limit.",
+        "6 C14",
+    ),
 }
 
 PENDING = {}
